@@ -658,6 +658,11 @@ func RPCFreeSectors(ctx context.Context, t TransportClient, signer ContractSigne
 	var resp rhp4.RPCFreeSectorsResponse
 	if err := rhp4.ReadResponse(s, &resp); err != nil {
 		return RPCFreeSectorsResult{}, fmt.Errorf("failed to read response: %w", err)
+	} else if len(indices) > 0 && indices[0] >= numSectors {
+		// indices are sorted descending: a host answered a request for sectors
+		// the contract does not have instead of rejecting it; verifying a proof
+		// for such indices panics
+		return RPCFreeSectorsResult{}, clientErrf("sector index %d exceeds contract sectors %d", indices[0], numSectors)
 	} else if uint64(len(resp.OldSubtreeHashes)+len(resp.OldLeafHashes)) != freeSectorsProofSize(indices, numSectors) {
 		// VerifyFreeSectorsProof does not check the shape of the proof: with
 		// fewer subtree hashes than the requested indices require, a proof for
